@@ -54,11 +54,12 @@ type mxOracle struct {
 	lastPartTarget map[int]int64
 	sizeErr   bool
 	anyWriteErr bool
+	partSeg     map[string][2]int // part key -> (stream, media sequence number of its segment)
 }
 
 func newMxOracle(r *mxRunner) *mxOracle {
 	return &mxOracle{r: r, written: map[int][]orcUnit{}, prevPl: map[int]*m3uMedia{}, firstSeen: map[string]string{},
-		rawFirst: map[string][]byte{}, segOrder: map[int][]string{}, maxTarget: map[int]int{}, lastPartTarget: map[int]int64{}}
+		partSeg: map[string][2]int{}, rawFirst: map[string][]byte{}, segOrder: map[int][]string{}, maxTarget: map[int]int{}, lastPartTarget: map[int]int64{}}
 }
 
 func (o *mxOracle) failf(format string, a ...any) {
@@ -206,10 +207,12 @@ func (o *mxOracle) checkSnap(pls map[int]*m3uMedia, bodies map[string]string, ra
 			}
 			for _, pt := range g.parts {
 				listedNow[r.canonKey(pt.uri)] = true
+				o.partSeg[r.canonKey(pt.uri)] = [2]int{si, msn}
 			}
 		}
 		for _, pt := range p.parts {
 			listedNow[r.canonKey(pt.uri)] = true
+			o.partSeg[r.canonKey(pt.uri)] = [2]int{si, p.mediaSeq + len(p.segs)}
 		}
 		if p.mapURI != "" {
 			listedNow[r.canonKey(p.mapURI)] = true
@@ -269,7 +272,12 @@ func (o *mxOracle) checkSnap(pls map[int]*m3uMedia, bodies map[string]string, ra
 		for _, g := range p.segs {
 			rounded := (g.dur + 50000) / 100000
 			if int64(p.target) < rounded {
-				o.failf("C03 stream %d: TARGETDURATION %d < EXTINF %d (x10us) rounded", si, p.target, g.dur)
+				if g.dur%100000 == 50000 && int64(p.target) == rounded-1 {
+					// the text is exactly x.50000: the muxer rounds the nanosecond value (just below x.5 s), a reader rounds the text
+					o.failf("C03 F26-extinf-half-rounding stream %d: EXTINF %d (x10us) reads x.50000 and rounds to %d, TARGETDURATION is %d (the nanosecond duration is within 5 us below the half)", si, g.dur, rounded, p.target)
+				} else {
+					o.failf("C03 stream %d: TARGETDURATION %d < EXTINF %d (x10us) rounded", si, p.target, g.dur)
+				}
 			}
 			for _, pt := range g.parts {
 				if pt.dur > p.partTarget {
@@ -373,6 +381,12 @@ func (o *mxOracle) checkSnap(pls map[int]*m3uMedia, bodies map[string]string, ra
 			// playlist no longer itemises (parts are listed only under the last two segments) or the init
 			if strings.HasPrefix(k, "seg") && body != "none" {
 				o.failf("C05/C18 %s has left the playlist but still returns %s", k, trunc(body))
+			}
+			// a part goes with its segment: once that segment has left the window its URI must not resolve
+			if ps, ok := o.partSeg[k]; ok && strings.HasPrefix(k, "part") {
+				if cur := pls[ps[0]]; cur != nil && ps[1] < cur.mediaSeq && body != "none" {
+					o.failf("C05/C18 %s belonged to media sequence %d, which has left the playlist (now starting at %d), but it still returns %s", k, ps[1], cur.mediaSeq, trunc(body))
+				}
 			}
 		}
 	}
@@ -676,6 +690,8 @@ func (o *mxOracle) checkMediaTS(p *m3uMedia, bodies map[string]string) {
 	r := o.r
 	lead := o.leadingTrack()
 	prevIx := map[int]int{}
+	leadUnits := make([][]int, len(p.segs)) // per listed segment: indices (into written[lead]) of its leading-track units
+	defer func() { o.checkDueTS(p, lead, leadUnits) }()
 	for i, g := range p.segs {
 		k := r.canonKey(g.uri)
 		body := bodies[k]
@@ -712,6 +728,9 @@ func (o *mxOracle) checkMediaTS(p *m3uMedia, bodies map[string]string) {
 				o.failf("C01 %s: unit %d delivered out of writing order", k, pay)
 			}
 			prevIx[ti] = ix
+			if ti == lead {
+				leadUnits[i] = append(leadUnits[i], ix)
+			}
 			if ti == lead && firstLead {
 				firstLead = false
 				if isVideoCodec(r.tracks[ti].codec) && !u.ra {
@@ -845,6 +864,43 @@ func (o *mxOracle) noteReq(si int, a map[string]string, outcome string, p *m3uMe
 		}
 		if int64(msn) == int64(last)+1 && partS != "-" && int(part) < len(prev.parts) {
 			o.failf("C06 stream %d: request for published part %s of the open segment blocks", si, partS)
+		}
+	}
+}
+
+// checkDueTS: C02 for MPEG-TS — a segment is started at a leading unit exactly when it is due
+// (video: random access and (SegmentMinDuration reached or parameters changed); audio-only: 100 writes and
+// SegmentMinDuration reached), never earlier, never skipped.
+func (o *mxOracle) checkDueTS(p *m3uMedia, lead int, leadUnits [][]int) {
+	r := o.r
+	w := o.written[lead]
+	rate := r.tracks[lead].rate
+	video := isVideoCodec(r.tracks[lead].codec)
+	for i, us := range leadUnits {
+		if len(us) == 0 {
+			continue
+		}
+		start := toDurNs(w[us[0]].dts, rate)
+		// never skipped when due: no later unit of this segment should have started a new one
+		for n, ix := range us[1:] {
+			d := toDurNs(w[ix].dts, rate) - start
+			if video && w[ix].ra && (d >= r.segMin || o.paramChangedAt(lead, ix)) {
+				o.failf("C02 media sequence %d: random-access unit %d is %d ns into the segment (SegmentMinDuration %d, parameter change %v) but no segment was started there", p.mediaSeq+i, w[ix].pay, d, r.segMin, o.paramChangedAt(lead, ix))
+			}
+			if !video && n+1 >= 100 && d >= r.segMin {
+				o.failf("C02 media sequence %d: audio unit %d is the %dth write of the segment and %d ns into it (>= SegmentMinDuration %d) but no segment was started there", p.mediaSeq+i, w[ix].pay, n+2, d, r.segMin)
+			}
+		}
+		// never earlier: the next listed segment's first unit must have been due
+		if i+1 < len(leadUnits) && len(leadUnits[i+1]) > 0 {
+			nx := leadUnits[i+1][0]
+			d := toDurNs(w[nx].dts, rate) - start
+			if video && !(d >= r.segMin || o.paramChangedAt(lead, nx)) {
+				o.failf("C02 media sequence %d is only %d ns long (SegmentMinDuration %d) and no parameter change explains the cut", p.mediaSeq+i, d, r.segMin)
+			}
+			if !video && (len(us) < 100 || d < r.segMin) {
+				o.failf("C02 media sequence %d (audio-only MPEG-TS) was cut after %d writes / %d ns (needs 100 writes and SegmentMinDuration %d)", p.mediaSeq+i, len(us), d, r.segMin)
+			}
 		}
 	}
 }
